@@ -9,6 +9,19 @@ use tracing_subscriber::Layer;
 
 thread_local! {
     pub static BYTES: Cell<u64> = const { Cell::new(0) };
+    /// level of the listener installed for the run in progress (0: nobody listens)
+    pub static LEVEL: Cell<u32> = const { Cell::new(0) };
+}
+
+/// the engine logs every node at DEBUG and TRACE, and formatting a board per node makes a
+/// search some hundred times slower: scenarios scale their poll budgets down by this factor
+/// while somebody listens at those levels
+pub fn budget_divisor() -> u64 {
+    if LEVEL.with(|l| l.get()) >= 2 {
+        64
+    } else {
+        1
+    }
 }
 
 struct Fmt;
@@ -31,6 +44,7 @@ impl<S: tracing::Subscriber> Layer<S> for Sink {
 
 /// install the listener for the current thread until the guard is dropped
 pub fn listen(level: u32) -> Option<tracing::subscriber::DefaultGuard> {
+    LEVEL.with(|l| l.set(level));
     let filter = match level {
         1 => tracing_subscriber::filter::LevelFilter::INFO,
         2 => tracing_subscriber::filter::LevelFilter::DEBUG,
